@@ -35,7 +35,7 @@ class Job:
     rule: str
     per_path_timeout: float = 30.0
     describe: Optional[Callable[[str, Dict[str, Any]], Any]] = None
-    must_exhaust: bool = False  # True: an un-exhausted tree is reported as inconclusive (exit 2)
+    must_exhaust: bool = False  # True: an un-exhausted tree is reported as inconclusive (exit 2); default: evidence is downgraded to 'exploration'
     twin_budget: float = 60.0
     max_samples: int = 1
 
